@@ -1,5 +1,6 @@
 import Driver.Util
 import CtyModel.d01Side
+import CtyModel.d01bSide
 open CtyModel
 
 /-- `judge.c01.scope <op> o1 o2 w1 w2`: is this paired run inside the scope (all
@@ -14,5 +15,11 @@ def handleD01 : Handler := fun op args =>
       | none => "na")
   | "judge.c01.scope1", [.atom "length", o, w] => do
     pure (if D01.inScopeLength (← Value.ofSexp o) (← Value.ofSexp w) then "in" else "out")
+  | "judge.c01.scopeHas", [o, el, w, h] => do
+    -- every hypothesis of C01.sound_hasElement_members_partial (needle kept, members weakened in place)
+    let h : Option Int ← (match h with
+      | .atom "-" => some none
+      | x => (Sexp.decInt x).map some)
+    pure (if D01b.inScopeHasMembers (← Value.ofSexp o) (← Value.ofSexp el) (← Value.ofSexp w) h then "in-members" else "out")
   | "judge.c01.scope1", _ => some "na"
   | _, _ => none
